@@ -503,6 +503,72 @@ def scope_shard(args):
     return out, k, len(negatives)
 
 
+# libraries created one after the other in one interpreter, the way tests/test_ast.py does it (LibraryNode / create_library_from_dictionary
+# without re-initialising the type tables): what a library declares must not colour how a later one is understood
+SEQ_LIBS = [
+    ("tdint", [{"decl": "typedef int Index"}]),
+    ("tdlong", [{"decl": "typedef long Index"}]),
+    ("tddouble", [{"decl": "typedef double Index"}]),
+    ("tdns", [{"decl": "namespace geo", "declarations": [{"decl": "typedef short Index"}]}, {"decl": "typedef unsigned int Index"}]),
+    ("enum", [{"decl": "enum Index { I_A, I_B }"}]),
+    ("class", [{"decl": "class Index", "declarations": [{"decl": "Index()"}]}]),
+    ("tmpl", [{"decl": "template<typename T> void first(T arg)", "cxx_template": [{"instantiation": "<int>"}]}]),
+    ("plain", [{"decl": "int other(int a)"}]),
+]
+SEQ_PROBES = ["Index big(Index i)", "void put(const Index *v, Index &w)", "void second(T arg)", "Index *many(int n)"]
+
+
+def seq_probe(lib):
+    from shroud import declast
+
+    out = []
+    for text in SEQ_PROBES:
+        try:
+            d = declast.check_decl(text, namespace=lib)
+            out.append("ok cxx=%s c=%s" % (d.gen_arg_as_cxx(), d.gen_arg_as_c()))
+        except BaseException as e:  # noqa - the class of the refusal is what is compared
+            out.append("refused %s" % ("diagnostic" if type(e).__name__ in ("RuntimeError", "SystemExit") else type(e).__name__))
+    return out
+
+
+def seq_case(args):
+    """names of SEQ_LIBS processed in this order in one interpreter -> how the last one understands the probes"""
+    order = args[0]
+    from shroud import ast, typemap
+
+    typemap.initialize()
+    lib = None
+    for nm in order:
+        decls = dict(SEQ_LIBS)[nm]
+        lib = ast.create_library_from_dictionary({"library": "L" + nm, "cxx_header": "l.hpp", "declarations": decls})
+    return seq_probe(lib)
+
+
+def seq_shard(args):
+    recs = []
+    names = [n for n, _ in SEQ_LIBS]
+    alone = {}
+    for nm in names:
+        r = isolate.call_in_child(seq_case, (([nm],),), timeout=60)
+        alone[nm] = r.value if r.status == "ok" else ["failed %s %s" % (r.exc, (r.msg or "")[:80])]
+    for a in names:
+        for b in names:
+            if b == "enum" and a != "enum":
+                # an enumeration keeps a typemap registered earlier under its name (create_enum_typemap looks it up first, so that a
+                # 'typemap:' section can describe it beforehand); the real entry points re-initialise the tables for every run
+                continue
+            r = isolate.call_in_child(seq_case, (([a, b],),), timeout=60)
+            got = r.value if r.status == "ok" else ["failed %s %s" % (r.exc, (r.msg or "")[:80])]
+            err = None
+            if got != alone[b]:
+                k = [i for i, (x, y) in enumerate(zip(got + ["?"] * 9, alone[b])) if x != y][0]
+                err = "(6) after library '%s' in the same interpreter, library '%s' reads %r as %r; alone it reads it as %r" % (
+                    a, b, SEQ_PROBES[k] if k < len(SEQ_PROBES) else "?", got[k] if k < len(got) else got, alone[b][k])
+            recs.append({"text": "library %s after library %s" % (b, a), "kind": "sequence", "must": "must", "status": "ok", "cxx": None, "c": None, "err": err})
+    return recs
+
+
+
 def run(ctx):
     level = 2 if ctx.tier == "quick" else 3
     W = ctx.workers
@@ -516,6 +582,9 @@ def run(ctx):
     if lres.status != "ok":
         raise RuntimeError("scope lookup shard: %s %s" % (lres.exc, lres.msg))
     recs.extend(lres.value[0])
+    seq = seq_shard(())
+    recs.extend(seq)
+    ctx.part("library_sequences", libraries=len(SEQ_LIBS), ordered_pairs=len(seq), probes=len(SEQ_PROBES))
     ctx.part("scope_lookup", scopes=len(SCOPES), names=len(LOOKUP_NAMES), declarations=len(lres.value[0]), gxx_resolving=lres.value[1], gxx_not_resolving=lres.value[2])
     ctx.count(states=len(recs), transitions=len(recs), validated=len(recs))
     kinds = {}
